@@ -13,6 +13,12 @@ use serde_json::{json, Value as J};
 
 pub const VERIF_ROOT: &str = "/verif";
 
+/// Where evidence and replay files go (default /verif; VERIF_OUT_DIR redirects side runs so they
+/// do not clobber the registered evidence).
+pub fn out_root() -> PathBuf {
+	std::env::var("VERIF_OUT_DIR").map(PathBuf::from).unwrap_or_else(|_| PathBuf::from(VERIF_ROOT))
+}
+
 // ---------------------------------------------------------------------------
 // block_on without a runtime: polls the future; a Pending that is not followed by a
 // wake-up within `max_polls` re-polls is reported as "would block".
@@ -274,7 +280,7 @@ impl Report {
 		let mut exit = 0;
 		// One VIOLATION line per distinct unknown class (first = simplest counterexample).
 		let mut seen = std::collections::BTreeSet::new();
-		let rdir = Path::new(VERIF_ROOT).join("replays").join("last");
+		let rdir = out_root().join("replays").join("last");
 		for v in &unknown {
 			if !seen.insert(v.class.clone()) {
 				continue;
@@ -301,7 +307,7 @@ impl Report {
 			"wall_s": self.started.elapsed().as_secs_f64(),
 			"violations": unknown.len(),
 		});
-		let edir = Path::new(VERIF_ROOT).join("evidence");
+		let edir = out_root().join("evidence");
 		let _ = std::fs::create_dir_all(&edir);
 		let epath = edir.join(format!("{}.json", self.property));
 		if let Err(e) = std::fs::write(&epath, serde_json::to_string_pretty(&ev).unwrap()) {
